@@ -549,6 +549,12 @@ func Run(cfg *common.Config) (*common.Report, error) {
 	for i := 0; i < cfg.Pick(30, 800); i++ {
 		d.docCase(d.dupPathDoc(), cfg.Rng.Intn(len(d.hs)))
 	}
+	for i := 0; i < cfg.Pick(40, 1000); i++ {
+		d.docCase(d.whitespaceDoc(), []int{0, 1, 2, 0}[i%4])
+	}
+	for i := 0; i < cfg.Pick(20, 500); i++ {
+		d.rawCase(d.whitespaceRaw(), "whitespace", cfg.Rng.Intn(3), false)
+	}
 	for i := 0; i < cfg.Pick(36, 900); i++ {
 		d.docCase(d.emptyStringDoc(), []int{0, hiEmptyNil, hiEmptyBig, 2}[i%4]) // not 1: the salted hasher hashes "salt:"
 	}
